@@ -23,7 +23,7 @@ MODULES = {'np', 'numpy', 'bknp', 'np_backend', 'np_mod', 'backend', 'math', 'fu
            'torch', 'sys', 'os', 're', 'time', 'inspect', 'weakref', 'core', 'types'}
 
 # result allocated by the call; members shared with the arguments (shallow copy)
-FRESH_SHALLOW = {'array', 'copy', 'tile', 'concatenate', 'resize', 'append', 'full', 'stack', 'hstack', 'vstack', 'take',
+FRESH_SHALLOW = {'array', 'copy', 'clone', 'tensor', 'tile', 'concatenate', 'resize', 'append', 'full', 'stack', 'hstack', 'vstack', 'take',
                  'delete', 'insert', 'roll', 'repeat', 'tolist', 'astype', 'flatten', 'list', 'tuple', 'sorted', 'dict', 'set',
                  'frozenset', 'fromiter', 'choose', 'compress', 'unique', 'partition', 'filter', 'map', 'zip', 'enumerate',
                  'reversed', 'iter', 'items', 'values', 'keys', 'full_like', 'kg_asarray_copy', 'accumulate', 'chain'}
@@ -40,10 +40,12 @@ FRESH_DEEP = {'deepcopy', 'str_to_chr_arr', 'join', 'format', 'split', 'rjust', 
               'isnumeric', 'isdigit', 'isalpha', 'encode', 'decode', 'linspace', 'eye', 'identity', 'KGSym', 'KGChar',
               'RangeError', 'RuntimeError', 'KlongException', 'ValueError', 'TypeError', 'IndexError', 'KeyError'}
 # result may be the argument itself / a view of it
-ALIAS = {'asarray', 'kg_asarray', 'reshape', 'ravel', 'squeeze', 'transpose', 'view', 'to_numpy', 'swapaxes', 'atleast_1d',
+ALIAS = {'asarray', 'from_numpy', 'as_tensor', 'kg_asarray', 'reshape', 'ravel', 'squeeze', 'transpose', 'view', 'to_numpy', 'swapaxes', 'atleast_1d',
          'atleast_2d', 'flip', 'expand_dims', 'asanyarray', 'ascontiguousarray', 'get', 'item', 'pop', 'setdefault',
          'array_split', 'hsplit', 'vsplit', 'moveaxis', 'broadcast_to', 'diagonal', 'real', 'imag', 'next', 'getattr',
          'cast', 'detach', 'cpu', 'numpy', 'contiguous'}
+# methods that may return their receiver or a tensor sharing its storage
+METHOD_ALIAS = {'float', 'double', 'half', 'long', 'int', 'to', 'detach', 'cpu', 'cuda', 'contiguous', 'type', 'view_as', 'expand_as', 'data_ptr', 'numpy'}
 # methods that write the receiver in place
 MUT_METHODS = {'append', 'extend', 'sort', 'put', 'fill', 'resize', 'pop', 'insert', 'remove', 'clear', 'update', 'setdefault',
                'reverse', 'itemset', 'popitem', 'add', 'discard', 'setfield', 'partition', 'byteswap', '__setitem__',
@@ -642,6 +644,16 @@ class _Walker:
         everything = E
         for a in args + list(kws.values()) + ([recv] if recv is not None else []):
             everything |= a.all()
+        # ---- torch convention: a method whose name ends in '_' works in place and returns its receiver
+        if recv is not None and name and name.endswith('_') and not name.startswith('_'):
+            self.site('call.' + name, e, recv, root_name=self.root(f.value))
+            fl = recv.flat()
+            return AV(fl.outer, fl.deep)
+        if recv is not None and name in getattr(self.fa, 'extra_fresh_methods', ()):
+            return AV(E, recv.flat().deep)          # a new object (contract table of the check that set extra_fresh_methods)
+        if recv is not None and name in METHOD_ALIAS:
+            fl = recv.flat()
+            return AV(fl.outer, fl.deep)            # may return the receiver itself or share its storage (x.float() on a float tensor, x.detach())
         # ---- in-place writers
         if recv is not None and name in MUT_METHODS:
             self.site('call.' + name, e, recv, root_name=self.root(f.value))
